@@ -775,6 +775,33 @@ def unit_file(item):
                         )
                         break
                 p.outcome(f"file|{cls_name}")
+        # several named validation / test files (given in an order that is NOT lexicographic): every named data set holds
+        # the instances of ITS file, in the file's order
+        sizes = {"tsp50.npz": N, "tsp100.npz": N + 2, "a_first.npz": N + 1}
+        for fn, n_ in sizes.items():
+            np.savez(os.path.join(d, fn), locs=(np.arange(n_ * 4 * 2, dtype=np.float32).reshape(n_, 4, 2) / 61.0 + len(fn)))
+        for phase in ("val", "test"):
+            for order in (["tsp50.npz", "tsp100.npz", "a_first.npz"], ["tsp100.npz", "a_first.npz", "tsp50.npz"]):
+                for names in (None, ["small", "large", "extra"]):
+                    kw = {f"{phase}_file": order, f"{phase}_dataloader_names": names}
+                    env = TSPEnv(generator_params=dict(num_loc=4), data_dir=d, **kw)
+                    dss = env.dataset(phase=phase)
+                    keys = names or [str(i) for i in range(len(order))]
+                    p.add(states=1, transitions=len(order), evaluations=sum(sizes.values()), distinct_count=1)
+                    p.case(f"filelist|{phase}|{order}|{names}")
+                    for name, fn in zip(keys, order):
+                        want = torch.from_numpy(np.load(os.path.join(d, fn))["locs"])
+                        ds_ = dss.get(name) if isinstance(dss, dict) else None
+                        got = None
+                        if ds_ is not None:
+                            got = torch.cat([b["locs"] for b in DataLoader(ds_, batch_size=2, shuffle=False, collate_fn=ds_.collate_fn)], 0)
+                        if got is None or tuple(got.shape) != tuple(want.shape) or not torch.equal(got, want):
+                            p.violation(
+                                dict(property=PID, env="file_dataset", config="named_file_list", observable="values", trigger=f"{phase}_files_unsorted" if order != sorted(order) else f"{phase}_files"),
+                                dict(kind="file", N=N, cls="TensorDictDataset", batch_size=2, field="locs"),
+                                f"env.dataset('{phase}') with files {order} and names {keys}: data set '{name}' does not hold the {want.shape[0]} instances of its file {fn} (got {None if got is None else got.shape[0]} instances)",
+                            )
+                            break
     finally:
         shutil.rmtree(d, ignore_errors=True)
     p.sample(dict(part="file-backed dataset", N=N), cap=1)
@@ -817,6 +844,31 @@ def unit_mdam(item):
                     dict(kind="mdam", Nmax=item["Nmax"], N=N, eval_bs=bs),
                     f"MDAM rollout baseline: N={N} eval batch size {bs}: values {got if isinstance(got, Exception) else [round(x, 3) for x in got]} are not the per-instance best-path rewards {[round(x, 3) for x in want]}",
                 )
+    # the override must be installed for every way of asking for a rollout baseline: the default (warm-up around it) and
+    # a bare RolloutBaseline object handed to the model
+    from rl4co.envs import TSPEnv
+    from rl4co.models.rl.reinforce.baselines import RolloutBaseline, WarmupBaseline
+    from rl4co.models.zoo import MDAM
+
+    real_env = TSPEnv(generator_params=dict(num_loc=3))
+    for how in ("default", "bare_rollout_object"):
+        model = MDAM(real_env, policy=Marker(), baseline="rollout" if how == "default" else RolloutBaseline())
+        rb = model.baseline.baseline if isinstance(model.baseline, WarmupBaseline) else model.baseline
+        locs = torch.arange(3 * 3 * 2, dtype=torch.float32).reshape(3, 3, 2) / 50.0
+        ds = TensorDictDataset(TensorDict(dict(locs=locs), batch_size=[3]))
+        try:
+            got = rb.rollout(Marker(), env, batch_size=2, device="cpu", dataset=ds)
+            shape = tuple(got.shape)
+        except Exception as e:  # noqa: BLE001
+            shape = f"{type(e).__name__}: {str(e)[:60]}"
+        p.add(states=1, transitions=2, evaluations=3, distinct_count=1)
+        p.case(f"mdam|install|{how}")
+        if shape != (3,):
+            p.violation(
+                dict(property=PID, env="rollout_baseline", config="mdam_rollout", observable="extra", trigger=f"baseline_given_as_{how}"),
+                dict(kind="mdam", Nmax=item["Nmax"], N=3, eval_bs=2),
+                f"MDAM with the rollout baseline given as {how}: baseline values for 3 instances have shape {shape} instead of one best-path reward per instance",
+            )
     p.sample(dict(part="MDAM rollout override", sizes=f"1..{item['Nmax']}"), cap=1)
     return p
 
@@ -985,7 +1037,7 @@ def main(tier):
 def replay(rec):
     if rec.get("kind") == "mdam":
         p = unit_mdam(dict(head=dict(kind="mdam"), Nmax=rec["Nmax"]))
-        hit = [v for v in p.violations if v["replay"]["N"] == rec["N"] and v["replay"]["eval_bs"] == rec["eval_bs"]]
+        hit = [v for v in p.violations if v["replay"]["N"] == rec["N"] and v["replay"]["eval_bs"] == rec["eval_bs"]] or p.violations
         return bool(hit), "; ".join(v["msg"] for v in hit[:1]) or "MDAM rollout values belong to their instances"
     if rec.get("kind") == "file":
         p = unit_file(dict(head=dict(kind="file"), N=rec["N"]))
